@@ -146,6 +146,7 @@ Definition c10_class (be : backend) (sp : spec) (o : dbop) : N :=
               && (is_some (b_lang b)
                   || existsb (fun e => (a_typ (fst e) =? b_pfx b) && is_some (a_lang (fst e))) (sp_map sp)) then 4
       else if negb (sessioned (b_pfx b)) && negb (is_nil (b_sid b)) then 5
+      else if sessioned (b_pfx b) && is_nil (b_sid b) then 8
       else 0
     | _ => 0
     end
